@@ -840,6 +840,24 @@ def _inline_call(caller, bi, callee, serial, cl_map):
     for i, a in enumerate(t["args"]):
         blk["stmts"].append({"k": "assign", "lhs": {"l": off + 1 + i, "p": []}, "rv": {"k": "use", "op": a}, "sp": sp})
     blk["term"] = {"k": "goto", "target": boff, "sp": sp}
+    # a plain destination local takes the place of the helper's return slot: the helper's result assignments then are assignments of the
+    # destination itself, on the helper's own branches - as if the code had been written in place
+    if not t["dest"]["p"]:
+        dl = t["dest"]["l"]
+
+        def sub(x):
+            if isinstance(x, dict):
+                if x.get("l") == off and isinstance(x.get("p"), list):
+                    x["l"] = dl
+                for v in x.values():
+                    sub(v)
+            elif isinstance(x, list):
+                for v in x:
+                    sub(v)
+        for nb in caller["blocks"][boff:]:
+            nb["stmts"] = [st for st in nb["stmts"] if not (st["k"] == "assign" and st["lhs"] == t["dest"] and st["rv"] == {"k": "use", "op": {"move": {"l": off, "p": []}}})]
+            sub(nb["stmts"])
+            sub(nb["term"])
 
 
 def _inline_new_helpers(j, ref, renamed_new):
